@@ -130,6 +130,8 @@ def numeric_view(flat, x):
                 idx = int(c)
                 idx = min(max(idx, 0), len(v[1]) - 1)
                 lab = v[1][idx]
+                if not isinstance(lab, (int, float)) or isinstance(lab, bool):
+                    lab = idx          # non-numeric labels (strings, tuples, None): the objective works on the index
                 z.append(float(lab) + (float(c) - idx) * 0.123 if float(c) != idx else float(lab))
             except Exception:
                 z.append(float("nan"))
@@ -216,10 +218,23 @@ def eval_objective(obj, flat, x):
     return float(val)
 
 
+def _ret(kind, v):
+    """the Python / numpy type in which the user's objective hands its value back (spec["ret"])"""
+    if kind == "np64":
+        return np.float64(v)
+    if kind == "np32":
+        return np.float32(v)
+    if kind == "int":
+        return int(round(v)) if math.isfinite(v) else v
+    return v
+
+
 def eval_spec(spec, x, flat=None):
     """what objective_function returns for this spec: float (single) or list of floats (multi-objective)"""
     flat = flat if flat is not None else flat_vars(spec["vars"])
     vals = [eval_objective(o, flat, x) for o in spec["obj"]]
+    if spec.get("ret"):
+        vals = [_ret(spec["ret"], v) for v in vals]
     return vals if spec.get("weights") is not None else vals[0]
 
 
@@ -228,7 +243,7 @@ def reported_cost(spec, x, flat=None):
     v = eval_spec(spec, x, flat)
     if spec.get("weights") is not None:
         return float(np.dot(v, spec["weights"]))
-    return v
+    return float(v)
 
 
 def fitness_of(cost):
